@@ -15,7 +15,7 @@
   (`bytes`) and the comparison trace (`trace`).  Output: `M <line> <kind> …`
   per mismatch (first 40 in full) and a final `SUMMARY` line.
 -/
-import Stevia
+import Stevia.ModelAll
 import Std.Data.HashMap
 open Stevia
 
